@@ -214,3 +214,49 @@ def ggVolume (s : GG α) : α := moment 3 s.cur.n s.cur.psd s.cur.size
 end grainload
 
 end KawinV.Coupling
+
+/-
+ADDITIONS (round 5): the host step `PrecipitateBase.postProcess` (kawin/precipitation/KWNBase.py 596-631) together
+with the solver loop that calls it (kawin/solver/Solver.py 199-224), as the stopping conditions and the coupling
+see them.  postProcess does, in this order: (1) record the row of the step (`_appendArrays`: `pData.n += 1`),
+update the size distribution; (2) `updateCoupledModels()`; (3) test the stopping conditions on the new row and
+return the flag.  The solver loop `while currTime < tf and not stop` performs steps until the time span is used up
+(`fuel` = the number of steps the span allows) or a step returns `stop = True` — that step IS recorded.
+`stopAt n` = what the and/or combination of the (latched) conditions says on host row `n`; it is an arbitrary
+predicate here.  `early = true` is a variant that tests the conditions BEFORE the coupled update and returns early
+when they are met — not kawin's code; kept to state what goes wrong with it (witness theorem in Props/C18).
+-/
+namespace KawinV.Coupling
+
+/-- host rows recorded (`pData.n`) and the host indices at which `updateCoupledModels` ran, oldest first -/
+structure PSt where
+  n : Nat
+  upd : List Nat
+deriving DecidableEq, Repr
+
+def pinit : PSt := ⟨0, []⟩
+
+/-- one accepted host step: record the row, update the coupled models, test the conditions -/
+def hostPostProcess (early : Bool) (stopAt : Nat → Bool) (s : PSt) : PSt × Bool :=
+  let n := s.n + 1                       -- (1) the row of this step
+  let stop := stopAt n                   -- (3) conditions on the new row
+  if early && stop then (⟨n, s.upd⟩, true)          -- variant: return before the coupled update
+  else (⟨n, s.upd ++ [n]⟩, stop)                     -- (2) updateCoupledModels, then the flag
+
+/-- one `solve` call: steps until the flag is raised or the time span (`fuel` steps) is used up -/
+def solveCall (early : Bool) (stopAt : Nat → Bool) : Nat → PSt → PSt
+  | 0, s => s
+  | fuel + 1, s =>
+    let r := hostPostProcess early stopAt s
+    if r.2 then r.1 else solveCall early stopAt fuel r.1
+
+/-- several `solve` calls on the same host (conditions stay as they are between the calls) -/
+def solveCalls (early : Bool) (stopAt : Nat → Bool) (s : PSt) (fuels : List Nat) : PSt :=
+  fuels.foldl (fun s f => solveCall early stopAt f s) s
+
+/-- host index after every solve call -/
+def solveTrace (early : Bool) (stopAt : Nat → Bool) (s : PSt) : List Nat → List Nat
+  | [] => []
+  | f :: r => let s' := solveCall early stopAt f s; s'.n :: solveTrace early stopAt s' r
+
+end KawinV.Coupling
